@@ -6,6 +6,7 @@ import EaselModel.Msafile.PhylipLemmas
 import EaselModel.Msafile.SelexLemmas
 import EaselModel.Msafile.StockholmLemmas
 import EaselModel.Msafile.AbcTables
+import EaselModel.Msafile.GuessLemmas
 /-! # C01 — alignment input is total: property theorems (statements + glue; lemmas live in `Msafile/*Lemmas.lean`)
 
 Full statement (properties.jsonl): for every byte string, in each of the ten formats or with autodetection, text or digital
@@ -13,10 +14,11 @@ Full statement (properties.jsonl): for every byte string, in each of the ten for
 format-or-alphabet undetermined); never a crash, out-of-object access, UB, leak or internal exception; every alignment
 returned with success is well formed.
 
-PARTIAL at this revision: the theorems below cover the formats whose reader is modelled (`MODELLED` in props/c01.py:
-aligned FASTA, A2M, Clustal, Clustal-like, PSI-BLAST, PHYLIP interleaved and sequential, SELEX, Stockholm and Pfam), declared format, text mode and digital mode with a supplied alphabet, for EVERY byte string (no size
-bound).  The other formats, autodetection and alphabet guessing are covered by the harness monitors only (support, not
-proof); leaks are outside the model. `Good r` is: `ok m ⇒ m.wellFormed`, `eof`, `eformat msg ⇒ msg ≠ ""`; `fault`
+The theorems below cover all ten formats (aligned FASTA, A2M, Clustal, Clustal-like, PSI-BLAST, PHYLIP interleaved and
+sequential, SELEX, Stockholm and Pfam), declared format or format autodetection (section AUTODETECT at the end:
+`esl_msafile_GuessFileFormat`, `msafile_check_selex`, `esl_msafile_phylip_CheckFileFormat`), text mode and digital mode
+with a supplied or guessed alphabet (`esl_msafile_GuessAlphabet`), for EVERY byte string (no size bound).  Leaks and
+allocation failure are outside the model. `Good r` is: `ok m ⇒ m.wellFormed`, `eof`, `eformat msg ⇒ msg ≠ ""`; `fault`
 (out-of-bounds access of the bounds-checked model) and `exc` (ESL_EXCEPTION) are NOT good. -/
 namespace EaselModel.Props.C01
 open EaselModel.Msafile
@@ -559,6 +561,225 @@ example : (stockholmRead (stockholmCfg none) (splitLines [])).1 matches .eof := 
 example : (stockholmRead (stockholmCfg none) (splitLines [35,32,83,84,79,67,75,72,79,76,77,32,49,46,48,10,97,32,65,10])).1 matches .eformat _ := by
   decide +kernel     -- no "//"
 example : stockholmCfg (some abcRna) ∈ stoConfigs := by simp [stoConfigs]
+
+
+/-! # ===================== AUTODETECT section: the open path `msafile_OpenBuffer` =====================
+
+Model `Msafile/Guess.lean` (`openModel` = what `msafile_OpenBuffer` decides: declared or autodetected format, text mode,
+supplied or guessed alphabet, then the per-format `SetInmap`), lemmas `Msafile/GuessLemmas.lean`.
+`openBytes fsel asel fname src` answers `ok ⟨format, alphabet type, fmtd.namewidth⟩`, `enoformat`, `enoalphabet` (or `fault`:
+a bounds-checked access of a guesser failed).  `Opened.cfg` is the reader configuration the open path produces,
+`Opened.read` one `esl_msafile_Read` of the resolved reader (PHYLIP: with the autodetected name width). -/
+
+/-- whatever format and alphabet the open path resolves to, the reader configuration it builds (`esl_alphabet_Create(type)` +
+    the format's `SetInmap`) is valid: 10 formats × {text, RNA, DNA, amino} -/
+theorem cfgOf_valid (fmt : Fmt) (abc : Option AbcType) : (cfgOf fmt (abc.map abcOfType)).valid := by
+  cases fmt with
+  | stockholm =>
+    cases abc with
+    | none => exact sto_cfg_text_valid
+    | some t =>
+      cases t with
+      | rna => exact sto_cfg_rna_valid
+      | dna => exact sto_cfg_dna_valid
+      | amino => exact sto_cfg_amino_valid
+  | pfam =>
+    cases abc with
+    | none => exact sto_cfg_text_valid
+    | some t =>
+      cases t with
+      | rna => exact sto_cfg_rna_valid
+      | dna => exact sto_cfg_dna_valid
+      | amino => exact sto_cfg_amino_valid
+  | a2m =>
+    cases abc with
+    | none => exact a2m_cfg_text_valid
+    | some t =>
+      cases t with
+      | rna => exact a2m_cfg_rna_valid
+      | dna => exact a2m_cfg_dna_valid
+      | amino => exact a2m_cfg_amino_valid
+  | psiblast =>
+    cases abc with
+    | none => exact psiblast_cfg_text_valid
+    | some t =>
+      cases t with
+      | rna => exact psiblast_cfg_rna_valid
+      | dna => exact psiblast_cfg_dna_valid
+      | amino => exact psiblast_cfg_amino_valid
+  | selex =>
+    cases abc with
+    | none => exact selex_cfg_text_valid
+    | some t =>
+      cases t with
+      | rna => exact selex_cfg_rna_valid
+      | dna => exact selex_cfg_dna_valid
+      | amino => exact selex_cfg_amino_valid
+  | afa =>
+    cases abc with
+    | none => exact afa_cfg_text_valid
+    | some t =>
+      cases t with
+      | rna => exact afa_cfg_rna_valid
+      | dna => exact afa_cfg_dna_valid
+      | amino => exact afa_cfg_amino_valid
+  | clustal =>
+    cases abc with
+    | none => exact clustal_cfg_text_valid
+    | some t =>
+      cases t with
+      | rna => exact clustal_cfg_rna_valid
+      | dna => exact clustal_cfg_dna_valid
+      | amino => exact clustal_cfg_amino_valid
+  | clustallike =>
+    cases abc with
+    | none => exact clustal_cfg_text_valid
+    | some t =>
+      cases t with
+      | rna => exact clustal_cfg_rna_valid
+      | dna => exact clustal_cfg_dna_valid
+      | amino => exact clustal_cfg_amino_valid
+  | phylip =>
+    cases abc with
+    | none => exact phylip_cfg_text_valid
+    | some t =>
+      cases t with
+      | rna => exact phylip_cfg_rna_valid
+      | dna => exact phylip_cfg_dna_valid
+      | amino => exact phylip_cfg_amino_valid
+  | phylips =>
+    cases abc with
+    | none => exact phylip_cfg_text_valid
+    | some t =>
+      cases t with
+      | rna => exact phylip_cfg_rna_valid
+      | dna => exact phylip_cfg_dna_valid
+      | amino => exact phylip_cfg_amino_valid
+
+/-- … and satisfies the extra table conditions of the readers that need one -/
+theorem cfgOf_a2m_sync (abc : Option AbcType) : A2mValid (cfgOf .a2m (abc.map abcOfType)) := by
+  cases abc with
+  | none => exact a2m_cfg_text_sync
+  | some t =>
+    cases t with
+    | rna => exact a2m_cfg_rna_sync
+    | dna => exact a2m_cfg_dna_sync
+    | amino => exact a2m_cfg_amino_sync
+
+theorem cfgOf_selex_ok (abc : Option AbcType) : (cfgOf .selex (abc.map abcOfType)).selexOk = true := by
+  cases abc with
+  | none => exact selex_cfg_text_ok
+  | some t =>
+    cases t with
+    | rna => exact selex_cfg_rna_ok
+    | dna => exact selex_cfg_dna_ok
+    | amino => exact selex_cfg_amino_ok
+
+theorem cfgOf_sto_noIgnore (abc : Option AbcType) : (cfgOf .stockholm (abc.map abcOfType)).inmap.noIgnore = true := by
+  cases abc with
+  | none => exact sto_cfg_text_noIgnore
+  | some t =>
+    cases t with
+    | rna => exact sto_cfg_rna_noIgnore
+    | dna => exact sto_cfg_dna_noIgnore
+    | amino => exact sto_cfg_amino_noIgnore
+
+/-- the configuration of an opened file is valid -/
+theorem opened_cfg_valid (o : Opened) : o.cfg.valid := cfgOf_valid o.fmt o.abc
+
+/-- **every read of an opened file is total**: whatever the open path resolved (format, alphabet, name width) and whatever
+    lines are offered, the resolved reader returns ok with a well-formed alignment, eof, or eformat with a message -/
+theorem opened_read_good (o : Opened) (lines : List Bytes) : Good (o.read lines).1 := by
+  obtain ⟨fmt, abc, nw⟩ := o
+  cases fmt
+  · exact stockholmRead_good _ (cfgOf_valid .stockholm abc) (cfgOf_sto_noIgnore abc) lines
+  · exact stockholmRead_good _ (cfgOf_valid .stockholm abc) (cfgOf_sto_noIgnore abc) lines
+  · exact a2mRead_good _ (cfgOf_valid .a2m abc) (cfgOf_a2m_sync abc) lines
+  · exact psiblastRead_good _ (cfgOf_valid .psiblast abc) lines
+  · exact selexRead_good _ (cfgOf_valid .selex abc) (cfgOf_selex_ok abc) lines
+  · exact afaRead_good _ (cfgOf_valid .afa abc) lines
+  · exact clustalRead_good false _ (cfgOf_valid .clustal abc) lines
+  · exact clustalRead_good true _ (cfgOf_valid .clustal abc) lines
+  · exact phylipReadW_good nw false _ (cfgOf_valid .phylip abc) lines
+  · exact phylipReadW_good nw true _ (cfgOf_valid .phylip abc) lines
+
+/-- (1) **the guessers never fault**: format autodetection (its own rules, `msafile_check_selex`, the three PHYLIP deep
+    checks) and alphabet guessing (all formats, every name width), for every file name and every list of lines -/
+theorem guess_no_fault (fname : Option Bytes) (fmt : Fmt) (namewidth : Nat) (lines : List Bytes) :
+    guessFormat fname lines ≠ .fault ∧ phyCheckFileFormat lines ≠ .fault ∧ checkSeqUnknown lines ≠ .fault ∧
+    guessAlphabet fmt namewidth lines ≠ .fault :=
+  ⟨guessFormat_no_fault fname lines, phyCheckFileFormat_no_fault lines, checkSeqUnknown_no_fault lines,
+   guessAlphabet_no_fault fmt namewidth lines⟩
+
+/-- (2) **opening is total, any selection**: for every byte string, file name, format selection and alphabet selection the
+    open path answers ok / enoformat / enoalphabet; and when it answers ok, the configuration it built is valid and
+    EVERY subsequent `esl_msafile_Read` (on whatever is left of the input) has a good outcome -/
+theorem open_total (fsel : FmtSel) (asel : AbcSel) (fname : Option Bytes) (src : Bytes) :
+    ((∃ o, openBytes fsel asel fname src = .ok o) ∨ openBytes fsel asel fname src = .enoformat ∨
+      openBytes fsel asel fname src = .enoalphabet) ∧
+    (∀ o, openBytes fsel asel fname src = .ok o → o.cfg.valid ∧ ∀ lines, Good (o.read lines).1) := by
+  refine ⟨?_, fun o _ => ⟨opened_cfg_valid o, opened_read_good o⟩⟩
+  have hnf : openBytes fsel asel fname src ≠ .fault := openModel_no_fault fsel asel fname (splitLines src)
+  cases h : openBytes fsel asel fname src with
+  | ok o => exact Or.inl ⟨o, rfl⟩
+  | enoformat => exact Or.inr (Or.inl rfl)
+  | enoalphabet => exact Or.inr (Or.inr rfl)
+  | fault => exact absurd h hnf
+
+/-- (2) **format autodetection with alphabet guessing is total** (the instance the property names) -/
+theorem auto_total (fname : Option Bytes) (src : Bytes) :
+    ((∃ o, openBytes .auto .guess fname src = .ok o) ∨ openBytes .auto .guess fname src = .enoformat ∨
+      openBytes .auto .guess fname src = .enoalphabet) ∧
+    (∀ o, openBytes .auto .guess fname src = .ok o →
+      o.cfg.valid ∧ Good (o.read (splitLines src)).1 ∧ Good (o.read (o.read (splitLines src)).2).1) := by
+  have h := open_total .auto .guess fname src
+  exact ⟨h.1, fun o ho => ⟨(h.2 o ho).1, (h.2 o ho).2 _, (h.2 o ho).2 _⟩⟩
+
+/-- a status the caller did not ask for cannot come back: eslENOFORMAT only under autodetection, eslENOALPHABET only under
+    alphabet guessing; a declared format in text mode or with a supplied alphabet always opens -/
+theorem open_status_documented (fsel : FmtSel) (asel : AbcSel) (fname : Option Bytes) (src : Bytes) :
+    (openBytes fsel asel fname src = .enoformat → fsel = .auto) ∧
+    (openBytes fsel asel fname src = .enoalphabet → asel = .guess) :=
+  ⟨openModel_enoformat_auto fsel asel fname _, openModel_enoalphabet_guess fsel asel fname _⟩
+
+/-! ### non-vacuity and witnesses -/
+
+/-- Stockholm by its first line; 12 residues with all of A, C, G, U: RNA -/
+example : openBytes .auto .guess none (str "# STOCKHOLM 1.0\nseq1 ACGUACGUACGU\n//\n") = .ok ⟨.stockholm, some .rna, 0⟩ := by decide +kernel
+/-- … a ".pfam" suffix turns it into Pfam; 10 residues are too few to guess from -/
+example : openBytes .auto .guess (some (str "dir.x/f.pfam")) (str "# STOCKHOLM 1.0\nseq1 ACGUACGUAC\n//\n") = .enoalphabet := by decide +kernel
+example : openBytes .auto .text (some (str "dir.x/f.pfam")) (str "# STOCKHOLM 1.0\nseq1 ACGUACGUAC\n//\n") = .ok ⟨.pfam, none, 0⟩ := by decide +kernel
+/-- '>' is aligned FASTA unless the file is called ".a2m"; one amino-only letter (E) decides for amino -/
+example : openBytes .auto .guess none (str ">a\nACGTACGTACGE\n") = .ok ⟨.afa, some .amino, 0⟩ := by decide +kernel
+example : openBytes .auto .guess (some (str "x.a2m")) (str ">a\nACGTACGTACGT\n") = .ok ⟨.a2m, some .dna, 0⟩ := by decide +kernel
+/-- SELEX by `msafile_check_selex`, PSI-BLAST only through the ".pb" suffix -/
+example : openBytes .auto .text none (str "a ACGT\nb ACGT\n") = .ok ⟨.selex, none, 0⟩ := by decide +kernel
+example : openBytes .auto .text (some (str "f.pb")) (str "a ACGT\nb ACGT\n") = .ok ⟨.psiblast, none, 0⟩ := by decide +kernel
+example : openBytes .auto .text none (str "a ACGT\nb ACG\n") = .enoformat := by decide +kernel            -- ragged block: not SELEX
+/-- PHYLIP: one block = interleaved, strict name width 10 … -/
+example : openBytes .auto .text none (str " 2 4\nseq1      ACGT\nseq2      ACGT\n") = .ok ⟨.phylip, none, 10⟩ := by decide +kernel
+/-- … name width deduced from the header's `alen` and the column codes (4 here: the blanks behind the name are not part of
+    it), and used by the reader -/
+example : openBytes .auto .text none (str "2 4\nseq1   ACGT\nseq2   ACGT\n") = .ok ⟨.phylip, none, 4⟩ := by decide +kernel
+example : ((⟨.phylip, none, 4⟩ : Opened).read (splitLines (str "2 4\nseq1   ACGT\nseq2   ACGT\n"))).1 matches .ok _ := by decide +kernel
+example : ((⟨.phylip, none, 0⟩ : Opened).read (splitLines (str "2 4\nseq1   ACGT\nseq2   ACGT\n"))).1 matches .eformat _ := by decide +kernel
+/-- … sequential with two lines per sequence: `phylip_check_sequential_unknown` finds width 11 -/
+example : openBytes .auto .text none (str "2 4\nAAAAAAAAAA AC\nGT\nCCCCCCCCCC GT\nAC\n") = .ok ⟨.phylips, none, 11⟩ := by decide +kernel
+example : checkSeqUnknown (splitLines (str "2 4\nAAAAAAAAAA AC\nGT\nCCCCCCCCCC GT\nAC\n")) = .ok 11 := by decide +kernel
+/-- … a file consistent with both variants (2 interleaved blocks of name width 2, or 2 sequences of 2 lines with name
+    width 5) is refused: eslEAMBIGUOUS -/
+example : openBytes .auto .text none (str "2 4\nab   AC\nGT\ncd   AC\nGT\n") = .enoformat := by decide +kernel
+example : checkInterleaved (splitLines (str "2 4\nab   AC\nGT\ncd   AC\nGT\n")) = some (2, 2) ∧
+    checkSeqUnknown (splitLines (str "2 4\nab   AC\nGT\ncd   AC\nGT\n")) = .ok 5 := by decide +kernel
+/-- the witness of the over-read repaired by ef67b6d ("1 2\nname AC\n\f": the last line is shorter than the name width) -/
+example : openBytes .auto .text none [49, 32, 50, 10, 110, 97, 109, 101, 32, 65, 67, 10, 12] = .ok ⟨.phylips, none, 5⟩ := by decide +kernel
+/-- nothing, or nothing but blank lines: no format -/
+example : openBytes .auto .guess none [] = .enoformat := by decide +kernel
+example : openBytes .auto .guess none (str " \n\t\n") = .enoformat := by decide +kernel
+example : openBytes (.decl .clustal) .guess none [] = .enoalphabet := by decide +kernel
+/-- the suffix table looks at the last suffix, or at the one before ".gz" -/
+example : fmtBySuffix (some (str "a.b/c.sto.gz")) = some .stockholm ∧ fmtBySuffix (some (str "a.sto/c")) = none ∧
+    fmtBySuffix (some (str "c.phys")) = some .phylips ∧ fmtBySuffix (some (str "c.PHY")) = none := by decide +kernel
 
 
 end EaselModel.Props.C01
